@@ -1,26 +1,25 @@
-\* three static voters with crash and restart (loss of volatile state), exhaustive
+\* membership, deeper (thorough tier, time-boxed)
 CONSTANTS
   Node = {a, b, c}
-  InitVoters = {a, b, c}
+  InitVoters = {a, b}
   Value = {x, y}
   Nil = Nil
   MaxTerm = 2
   MaxLog = 4
-  MaxTimer = 4
-  MaxAE = 1
+  MaxTimer = 5
+  MaxAE = 5
   MaxClient = 1
   MaxCrash = 1
   MaxHalf = 1
-  MaxCfg = 0
+  MaxCfg = 3
   MaxRead = 0
   MaxSnap = 0
   SnapSize = 1
   AsyncKinds = {}
   MaxNet = 0
-  W = {}
+  W = {"Env:S5Free"}
   MayTimeout = {a, b, c}
   Gen = FALSE
 SPECIFICATION Spec
-SYMMETRY Symm
-INVARIANTS ElectionSafety LogMatching NoViolation CommittedDurable TypeOK
+INVARIANTS ElectionSafety LogMatching NoViolation TypeOK
 CHECK_DEADLOCK FALSE
